@@ -5,8 +5,9 @@
    Composition over the document walk (Tools/DiffDocSound.v): for ANY two documents and ANY fuel, if the analysis
    returns a report, the report holds a Breaking entry — and `swagger diff` then exits non-zero — whenever an endpoint
    is removed, a parameter is added as required or becomes required, a primitive parameter (number, string) rejects a
-   value it accepted, a response code or a response header is removed (the C13_doc_ theorems below). What remains exercised only: edits
-   below a body or response schema (properties, items, allOf), which the recursive compare_schema walks. *)
+   value it accepted, a response code or a response header is removed, a request body gains a required property (the C13_doc_ theorems
+   below). What remains exercised only: edits deeper inside a body or response schema (nested properties, items, allOf,
+   references), which the recursive compare_schema walks. *)
 From GS Require Import Base.Str Gen.GenDiffTables Tools.DiffTypes Tools.DiffSpec Tools.DiffModel Tools.DiffModelLemmas Tools.DiffSound Tools.DiffParams Tools.DiffReport Tools.DiffIdentity Tools.DiffDocSound.
 
 (* the policy tables regenerated from compatibility.go classify the request-narrowing codes as Breaking *)
@@ -216,6 +217,34 @@ Theorem C13_doc_response_header_removed : forall fuel a b ds, analyse fuel a b =
   In (n, h1) (r_headers r1) -> has_key n (r_headers r2) = false -> reports_breaking ds.
 Proof. exact doc_response_header_removed. Qed.
 Print Assumptions C13_doc_response_header_removed.
+
+(* a request body — inline object schemas without allOf whose own keywords agree — gains a property its schema requires *)
+Theorem C13_doc_body_required_property_added : forall fuel a b ds, analyse fuel a b = Ok ds ->
+  forall location k pit1 pit2 op1 op2, In location param_locations ->
+  In (k, (pit2, op2)) (url_methods b) -> find_um k (url_methods a) = Some (pit1, op1) ->
+  forall n p1 p2 s1 s2 name sc2, In (n, p2) (get_params (pi_params pit2) (o_params op2) location) ->
+  assoc n (get_params (pi_params pit1) (o_params op1) location) = Some p1 ->
+  p_schema p1 = Some s1 -> p_schema p2 = Some s2 ->
+  is_ref s1 = false -> is_ref s2 = false -> sc_allof s1 = [] -> sc_allof s2 = [] ->
+  compare_props s1 s2 = Ok [] -> is_array_type (sc_typ s1) = false -> NoDup (keys (sc_props s2)) ->
+  In (name, sc2) (sc_props s2) -> has_key name (sc_props s1) = false -> mem name (sc_required s2) = true ->
+  reports_breaking ds.
+Proof. exact doc_body_required_property_added. Qed.
+Print Assumptions C13_doc_body_required_property_added.
+
+Definition doc_body (props : list (str * schema)) (req : list str) : swagger :=
+  {| sw_consumes := None; sw_produces := None; sw_schemes := None; sw_host := []; sw_basepath := []; sw_info_desc := [];
+     sw_paths := [(s "/pets", {| pi_params := [];
+        pi_ops := [(s "post", {| o_tags := None; o_desc := []; o_deprecated := false;
+            o_params := [{| p_name := s "body"; p_in := s "body"; p_required := true; p_desc := [];
+                            p_schema := Some (Schema [] [s "object"] [] [] no_vals None props req []);
+                            p_simple := Simple [] [] [] false DNone DNone no_vals None |}];
+            o_responses := [(204%Z, {| r_desc := s "ok"; r_schema := None; r_headers := [] |})] |})] |})];
+     sw_defs := [] |}.
+Example C13_doc_body_nonvacuous :
+  let str_s := Schema [] [s "string"] [] [] no_vals None [] [] [] in
+  exists ds, analyse 4 (doc_body [(s "name", str_s)] []) (doc_body [(s "name", str_s); (s "zip", str_s)] [s "zip"]) = Ok ds /\ has_breaking ds = true.
+Proof. eexists. split; vm_compute; reflexivity. Qed.
 
 (* non-vacuity: two documents that meet the hypotheses of the narrowed-parameter clause; the analysis returns and
    the report holds the Breaking entry *)
